@@ -23,6 +23,7 @@ def _lib():
         "cp": L.CPhaseGate, "swap": L.SwapGate, "iswap": L.iSwapGate, "dcx": L.DCXGate, "rzx": L.RZXGate,
         "xx_plus_yy": L.XXPlusYYGate, "xx_minus_yy": L.XXMinusYYGate, "ccx": L.CCXGate, "cswap": L.CSwapGate, "ccz": L.CCZGate, "u": L.UGate,
         "reset": Reset, "measure": Measure, "qpd_measure": QPDMeasure, "move": Move, "cut_wire": CutWire,
+        "global_phase": L.GlobalPhaseGate,
     }
 
 
